@@ -300,8 +300,6 @@ def _paths(v, path=()):
             yield from _paths(v[k], path + (k,))
     elif isinstance(v, int) and not isinstance(v, bool):
         yield path, v
-    elif isinstance(v, str) and len(v) > 1:
-        yield path, v
 
 
 def _get(v, path):
@@ -361,16 +359,6 @@ def ddmin(mod, case, sig, budget):
                     chunk = max(chunk // 2, 1)
             elif isinstance(val, int) and val not in (0,):
                 for new in (0, val // 2, val - 1 if val > 0 else val + 1):
-                    if new == val or runs >= budget:
-                        continue
-                    cand = _set(case, path, new)
-                    runs += 1
-                    if fails(cand):
-                        case = cand
-                        progress = True
-                        break
-            elif isinstance(val, str):
-                for new in (val[:1], val[:len(val) // 2]):
                     if new == val or runs >= budget:
                         continue
                     cand = _set(case, path, new)
